@@ -1,4 +1,5 @@
 import Pog.Lemmas.Names
+import Pog.Props.Loader
 import Pog.Props.Extract
 import Pog.Lemmas.Fresh
 /-
@@ -27,6 +28,14 @@ import Pog.Lemmas.Fresh
     extract_keeps_original_names / extract_never_shrinks   original keys stay, in order
 -/
 -- INDEX Pog.ExtractProps: extract_keeps_original_names, extract_never_shrinks, suffix_loops_terminate, extract_new_names_fresh, extract_keys_nodup, enum_entry_name_counterexample
+/-
+  C20, names of schemas promoted from responses / request bodies / parameters (`{opId}{code}Response`, `{opId}Param{Name}`, …;
+  Pog/Model/Loader.lean; claimed from Pog/Props/Loader.lean):
+    promotion_names_injective_same_operation / _partial / respPromoName_eq_iff   when two requested names coincide
+    ✗ promotion_name_collision_*           the collisions that exist (two media types of one response; `a-b` vs `a_b`; `get_user` vs `getUser`)
+    ✗ post_process_*_name_collision        two responses of one operation are both renamed `{OpId}Response`
+-/
+-- INDEX Pog.LoaderProps: respPromoName_eq_iff, promotion_names_differ_unless_prefix, promotion_names_injective_same_operation, promotion_names_injective_partial, response_vs_body_promotion_names_disjoint, promotion_name_collision_arbitrary_keys, promotion_name_collision_same_response, promotion_name_collision_request_body, promotion_name_collision_parameters, promotion_name_collision_after_sanitize, post_process_response_name_collision_counterexample, post_process_request_name_collision_counterexample
 namespace Pog.C20
 open Pog
 
